@@ -25,8 +25,11 @@ def main(tier, seed):
     expected, direct_bad = [], []
     shapes = {"simple": 0, "depth1": 0, "deeper": 0}
     for qi, q in enumerate(qs):
-        rq = M.real_query(tf, q)
-        row = [qtie.impl_eval(tf, rq, rp) for rp in rpts]
+        try:
+            rq = M.real_query(tf, q)
+            row = [qtie.impl_eval(tf, rq, rp) for rp in rpts]
+        except Exception:  # noqa  building the query itself raised: the same outcome on every point
+            row = [2] * len(rpts)
         expected.append(row)
         shapes["simple" if q[0] in ("S", "noop") else ("depth1" if qi < n_exh else "deeper")] += 1
         if qtie.wf(q):
